@@ -1,7 +1,8 @@
 /-
 C18 – regenerated tie over Generated/BindFuncs.lean (extract/funcs.go): for every source file the models of this
 property were transcribed from, the outline of EVERY function of that file – regenerated from /repo on every run –
-equals the transcript frozen here (bin/freeze_outlines.py, repo 7f54b88, 2026-10-01). A theorem that stops checking
+equals the transcript frozen here (bin/freeze_outlines.py, repo 7f54b88, 2026-10-01; `sliceNode.execute` re-transcribed by hand at
+repo a5eb801 "fix: template walk no longer panics on arrays": an array is rebuilt element by element, the model's list case covers it). A theorem that stops checking
 names the file whose code is no longer the code that was modelled; bin/check then searches for a failing input.
 -/
 import Uniflow.Generated.BindFuncs
@@ -75,6 +76,14 @@ theorem C18.src_template_node_as_modelled :
       "return reflect.ValueOf(buf.String()).Convert(t.typ).Interface(), nil"
     ] ∧
     Uniflow.Generated.BindFuncs.o_template_node_sliceNode_execute = [
+      "if s.typ.Kind() == reflect.Array",
+      "  values := reflect.New(s.typ).Elem()",
+      "  for i, child := range s.children",
+      "    value, err := child.execute(data)",
+      "    if err != nil",
+      "      return nil, err",
+      "    values.Index(i).Set(valueOf(value, s.typ.Elem()))",
+      "  return values.Interface(), nil",
       "values := reflect.MakeSlice(s.typ, 0, len(s.children))",
       "for _, child := range s.children",
       "  value, err := child.execute(data)",
